@@ -141,9 +141,9 @@ def run_route(case, path):
         try:
             if two:
                 set_skip(fail | skip1)
-                Experiment(triples, case.get("desc")).run(path, processes=1, seed=case.get("seed", 1))
+                Experiment(eval_tuples=triples, description=case.get("desc")).run(path, processes=1, seed=case.get("seed", 1))
             set_skip(fail)
-            res = Experiment(triples, case.get("desc")).run(path, processes=1, seed=case.get("seed", 1))
+            res = Experiment(eval_tuples=triples, description=case.get("desc")).run(path, processes=1, seed=case.get("seed", 1))
             return res, None, ctx.msgs, [v.calls for v in vals]
         except Exception as ex:  # the final read of the log raised
             return None, type(ex).__name__, ctx.msgs, [v.calls for v in vals]
@@ -173,12 +173,788 @@ def run_impl(case):
     return out, logs
 
 
+
+# ------------------------------------------------------------------ what the components produce
+CLASSNAMES = {"env": ("Env", "EnvNoParams"), "lrn": ("Lrn", "LrnNoParams"), "val": ("Evl", "EvlNoParams")}
+TYPEKEY = {"env": "env_type", "lrn": "family", "val": "eval_type"}
+
+
+def S(s):
+    return ["s", s]
+
+
+def safe_params(kind, comp):
+    """the params coba records for a component (SafeEnvironment/SafeLearner/SafeEvaluator.params), tagged pairs"""
+    p = comp.get("params")
+    cls = CLASSNAMES[kind][0 if p is not None else 1]
+    pairs = [list(kv) for kv in (p[1] if p is not None else [])]
+    tk = TYPEKEY[kind]
+    has = [kv for kv in pairs if kv[0] == S(tk)]
+    if kind == "val":
+        if has:
+            has[0][1] = S(cls)
+        else:
+            pairs.append([S(tk), S(cls)])
+    elif not has:
+        pairs.append([S(tk), S(cls)])
+    return pairs
+
+
+def assign_ids(case):
+    """ids by first occurrence in the triples (MakeTasks)"""
+    eid, lid, vid = {}, {}, {}
+    for e, l, v in case["triples"]:
+        eid.setdefault(e, len(eid))
+        lid.setdefault(l, len(lid))
+        vid.setdefault(v, len(vid))
+    return eid, lid, vid
+
+
+def rows_of(case, tri):
+    for t, rows in case["rows"]:
+        if list(t) == list(tri):
+            return rows
+    return []
+
+
+def row_keys(row):
+    return [kv[0] for kv in row[1]]
+
+
+def union_keys(rows):
+    out = []
+    for r in rows:
+        for k in row_keys(r):
+            if k not in out:
+                out.append(k)
+    return out
+
+
+def has_collision(rows):
+    ks = union_keys(rows)
+    strs = [pystr_key(k) for k in ks]
+    return len(set(strs)) != len(strs)
+
+
+def table_is_empty(rows):
+    """the triple leaves no row in the interactions table (so a restored run evaluates it again)"""
+    return len(union_keys(rows)) == 0
+
+
+def transactions(case):
+    """(phase1 or None, last-run transactions) as the list ProcessTasks emits (order immaterial for the tables)"""
+    eid, lid, vid = assign_ids(case)
+    fail = set(map(tuple, case.get("fail", [])))
+    skip1 = set(map(tuple, case.get("skip1", [])))
+    comps = []
+    for e, i in eid.items():
+        comps.append({"t": "T1", "id": i, "p": ["d", safe_params("env", case["envs"][e])]})
+    for l, i in lid.items():
+        comps.append({"t": "T2", "id": i, "p": ["d", safe_params("lrn", case["lrns"][l])]})
+    for v, i in vid.items():
+        comps.append({"t": "T3", "id": i, "p": ["d", safe_params("val", case["vals"][v])]})
+
+    def t4(tri):
+        e, l, v = tri
+        return {"t": "T4", "ids": [eid[e], lid[l], vid[v]], "rows": [r for r in rows_of(case, tri)]}
+
+    tris = [tuple(t) for t in case["triples"]]
+    if case.get("phases", 1) == 2:
+        p1 = comps + [t4(t) for t in tris if t not in fail and t not in skip1]
+        done_nonempty = [t for t in tris if t not in fail and t not in skip1 and not table_is_empty(rows_of(case, t))]
+        p2 = [t4(t) for t in tris if t not in fail and t not in done_nonempty]
+        return p1, p2
+    return None, comps + [t4(t) for t in tris if t not in fail]
+
+
+def lean_key(k):
+    if k is None or isinstance(k, bool):
+        return k
+    if k[0] == "s":
+        return k
+    if k[0] == "i":
+        return ["i", int(k[1])]
+    return ["o", pystr_key(k)]
+
+
+def lean_val(v):
+    if v is None or isinstance(v, bool):
+        return v
+    t = v[0]
+    if t == "i":
+        return ["i", int(v[1])]
+    if t == "f":
+        x = float(v[1])
+        if math.isnan(x):
+            return ["nan"]
+        if math.isinf(x):
+            return ["inf", x < 0]
+        n, d = x.as_integer_ratio()
+        return ["q", n, d]
+    if t == "s":
+        return v
+    if t in ("l", "t"):
+        return [t, [lean_val(x) for x in v[1]]]
+    if t == "d":
+        return ["d", [[lean_key(k), lean_val(x)] for k, x in v[1]]]
+    raise ValueError(v)
+
+
+def lean_tx(tx):
+    out = dict(tx)
+    if "p" in out:
+        out["p"] = lean_val(out["p"])
+    if "rows" in out:
+        out["rows"] = [lean_val(r) for r in out["rows"]]
+    return out
+
+
+def sort_model_val(c):
+    """model values come with dict entries in insertion order; sort them like canon_val does"""
+    if isinstance(c, list) and c:
+        if c[0] in ("l", "t"):
+            return [c[0], [sort_model_val(x) for x in c[1]]]
+        if c[0] == "d":
+            return ["d", sorted([[k, sort_model_val(v)] for k, v in c[1]], key=lambda p: p[0])]
+    return c
+
+
+def canon_model_row(row):
+    return sorted([[k, sort_model_val(v)] for k, v in row if v is not None], key=lambda p: p[0])
+
+
+def canon_model_result(r):
+    if "raised" in r:
+        return r
+    return {"exp": ["d", sorted([[k, sort_model_val(v)] for k, v in r["exp"]], key=lambda p: p[0])], "envs": [canon_model_row(x) for x in r["envs"]],
+            "lrns": [canon_model_row(x) for x in r["lrns"]], "vals": [canon_model_row(x) for x in r["vals"]],
+            "ints": [canon_model_row(x) for x in r["ints"]]}
+
+
+# ------------------------------------------------------------------ the documented normalisation (oracle for B)
+TIE_SLACK = Fraction(1, 2 ** 50)
+
+
+def float_ok(x, g):
+    if not (isinstance(g, list) and g and g[0] == "q"):
+        return "float"
+    G = Fraction(g[1], g[2])
+    X = Fraction(x)
+    if x.is_integer():
+        return None if G == X else "float-integral"
+    if (G * 100000).denominator != 1:
+        return "float-not-5-decimals"
+    if abs(G - X) <= Fraction(1, 200000) + abs(X) * TIE_SLACK:
+        return None
+    return "float-rounding"
+
+
+def val_ok(o, g, top, tupled=True):
+    """o: tagged original, g: canonical value read back. None when g is o up to the documented normalisation."""
+    if o is None:
+        return None if g is None else "none"
+    if isinstance(o, bool):
+        return None if g is o else "bool"
+    t = o[0]
+    if t == "i":
+        return None if g == ["q", int(o[1]), 1] else "int"
+    if t == "f":
+        x = float(o[1])
+        if math.isnan(x):
+            return None if g == ["nan"] else "nan"
+        if math.isinf(x):
+            return None if g == ["inf", x < 0] else "inf"
+        return float_ok(x, g)
+    if t == "s":
+        return None if g == ["s", o[1]] else "str"
+    if t in ("l", "t"):
+        if not (isinstance(g, list) and g and g[0] in ("l", "t")):
+            return "seq"
+        if top:
+            if tupled is True and g[0] != "t":
+                return "seq-not-tuple"
+        elif g[0] != "l":
+            return "nested-seq-not-list"
+        if len(g[1]) != len(o[1]):
+            return "seq-len"
+        for a, b in zip(o[1], g[1]):
+            r = val_ok(a, b, False)
+            if r:
+                return r
+        return None
+    if t == "d":
+        if not (isinstance(g, list) and g and g[0] == "d"):
+            return "dict"
+        want = {}
+        for k, v in o[1]:
+            want[json_key(k)] = v
+        got = {k: v for k, v in g[1]}
+        if set(want) != set(got):
+            return "dict-keys"
+        for k in want:
+            r = val_ok(want[k], got[k], False)
+            if r:
+                return r
+        return None
+    return "type"
+
+
+def kind_of(o):
+    if o is None:
+        return "none"
+    if isinstance(o, bool):
+        return "bool"
+    return {"i": "int", "f": "float", "s": "str", "l": "list", "t": "tuple", "d": "dict"}[o[0]]
+
+
+def row_get(row, name):
+    """values a row holds under field names whose str() is `name` (several only when names collide)"""
+    return [v for k, v in row[1] if pystr_key(k) == name]
+
+
+
+# ------------------------------------------------------------------ (B) the property, directly
+def p16_shape(rows, name):
+    """how the pinned commit's first-row test goes wrong on column `name` of a transaction:
+    None (it does not), 'TypeError', 'list-kept', 'scalar-tupled'"""
+    if name == "rewards":
+        return None
+    cells = []
+    for r in rows:
+        vs = row_get(r, name)
+        cells.append(vs[-1] if vs else None)
+    if not cells:
+        return None
+    first_seq = is_seq(cells[0])
+    kinds = [kind_of(c) for c in cells]
+    if first_seq:
+        if any(k in ("none", "bool", "int", "float") for k in kinds):
+            return "TypeError"
+        if any(k in ("str", "dict") for k in kinds):
+            return "scalar-tupled"
+        return None
+    if any(is_seq(c) for c in cells):
+        return "list-kept"
+    return None
+
+
+def check_property(case, impl):
+    """-> list of F('B', …)"""
+    fails = []
+    eid, lid, vid = assign_ids(case)
+    fail = set(map(tuple, case.get("fail", [])))
+    tris = [tuple(t) for t in case["triples"]]
+    done = [t for t in tris if t not in fail]
+    raised = {k: v["raised"] for k, v in impl.items() if "raised" in v}
+    if raised:
+        shapes = set()
+        for t in done:
+            rows = rows_of(case, t)
+            for name in {pystr_key(k) for k in union_keys(rows)}:
+                sh = p16_shape(rows, name)
+                if sh:
+                    shapes.add(sh)
+        if len(raised) == 3 and set(raised.values()) == {"TypeError"} and "TypeError" in shapes:
+            return [F("B", "Experiment.run / Result.from_file raise TypeError: a list-valued field of the first row of a transaction is None/absent/a number in a later row "
+                      "(packed_list2tuple decides by the first row and calls tuple() on every cell)", "first-row-tuple:TypeError")]
+        if set(raised.values()) == {"TypeError"} and any(has_collision(rows_of(case, t)) for t in done):
+            return [F("B", "Experiment.run / Result.from_file raise TypeError after field names that collide under str() were packed into one column", "str-key-collision")]
+        return [F("B", "reading the result log raised %s" % raised, "run-raised:" + "/".join(sorted(set(raised.values()))))]
+    # three routes identical
+    for a, b in (("nofile", "file"), ("file", "from_file")):
+        for tbl in ("exp", "envs", "lrns", "vals", "ints"):
+            if impl[a][tbl] != impl[b][tbl]:
+                fails.append(F("B", "routes differ: %s of the Result via %s is %s, via %s it is %s (gz=%s, phases=%s)" % (
+                    tbl, a, json.dumps(impl[a][tbl])[:300], b, json.dumps(impl[b][tbl])[:300], case.get("gz"), case.get("phases", 1)),
+                    "routes-differ:%s/%s:%s" % (a, b, tbl)))
+    if fails:
+        return fails
+    res = impl["file"]
+    # experiment meta
+    exp = dict((k, v) for k, v in res["exp"][1]) if res["exp"] and res["exp"][0] == "d" else {}
+    want_desc = ["s", case["desc"]] if case.get("desc") is not None else None
+    if exp.get("description") != want_desc or exp.get("n_learners") != ["q", len(lid), 1] or exp.get("n_environments") != ["q", len(eid), 1] \
+            or exp.get("seed") != ["q", case.get("seed", 1), 1]:
+        fails.append(F("B", "Result.experiment is %s" % json.dumps(res["exp"])[:300], "experiment-meta"))
+    # params tables
+    for kind, tbl, idcol, ids, comps in (("env", "envs", "environment_id", eid, case["envs"]), ("lrn", "lrns", "learner_id", lid, case["lrns"]),
+                                         ("val", "vals", "evaluator_id", vid, case["vals"])):
+        rows = res[tbl]
+        got_ids = [dict(map(tuple, [(k, json.dumps(v)) for k, v in r])).get(idcol) for r in rows]
+        want_ids = [json.dumps(["q", i, 1]) for i in sorted(ids.values())]
+        if got_ids != want_ids:
+            fails.append(F("B", "%s table has ids %s, expected %s" % (tbl, got_ids, want_ids), "params:%s:ids" % tbl))
+            continue
+        inv = {i: c for c, i in ids.items()}
+        for r in rows:
+            d = {k: v for k, v in r}
+            i = d.pop(idcol)[1]
+            want = {}
+            for k, v in safe_params(kind, comps[inv[i]]):
+                want[json_key(k)] = v
+            for k in sorted(set(want) | set(d)):
+                if k not in want:
+                    fails.append(F("B", "%s row %d has a field %r=%s that is not in the component's params" % (tbl, i, k, json.dumps(d[k])[:100]), "params:%s:extra-field" % tbl))
+                    continue
+                why = val_ok(want[k], d.get(k), True)
+                if why:
+                    fails.append(F("B", "%s row %d: param %r was %s, table holds %s (%s)" % (tbl, i, k, json.dumps(want[k])[:150], json.dumps(d.get(k))[:150], why),
+                                   "params:%s:%s" % (tbl, why)))
+    # interactions
+    by = {}
+    order = []
+    for r in res["ints"]:
+        d = {k: v for k, v in r}
+        try:
+            key = (d["environment_id"][1], d["learner_id"][1], d["evaluator_id"][1])
+        except Exception:
+            fails.append(F("B", "interaction row without ids: %s" % json.dumps(r)[:200], "ints:no-ids"))
+            continue
+        if key not in by:
+            order.append(key)
+        by.setdefault(key, []).append(d)
+    want_keys = {(eid[e], lid[l], vid[v]): (e, l, v) for (e, l, v) in done}
+    for key in order:
+        if key not in want_keys:
+            fails.append(F("B", "interactions table has rows for triple %s which was not completed" % (key,), "ints:rows-of-uncompleted-triple"))
+    for key, tri in sorted(want_keys.items()):
+        rows = rows_of(case, tri)
+        got = by.get(key, [])
+        names = []
+        for k in union_keys(rows):
+            n = pystr_key(k)
+            if n not in names:
+                names.append(n)
+        coll = has_collision(rows)
+        if rows and not names and not got:
+            fails.append(F("B", "triple %s: the evaluator yielded %d rows without fields, the interactions table has no row for it" % (key, len(rows)), "all-empty-rows-dropped"))
+            continue
+        if len(got) != len(rows):
+            fails.append(F("B", "triple %s: the evaluator yielded %d rows, the interactions table has %d%s" % (key, len(rows), len(got), " (field names collide under str())" if coll else ""),
+                           "str-key-collision" if coll else "ints:row-count"))
+            continue
+        for i, (orow, grow) in enumerate(zip(rows, got)):
+            if grow.get("index") != ["q", i + 1, 1]:
+                fails.append(F("B", "triple %s: row %d has index %s" % (key, i + 1, json.dumps(grow.get("index"))), "ints:index"))
+            for n in names:
+                if n in RESERVED_ROW_KEYS:
+                    continue
+                cands = row_get(orow, n) or [None]
+                g = grow.get(n)
+                whys = [val_ok(o, g, True, "either" if n == "rewards" else True) for o in cands]
+                if None in whys:
+                    continue
+                why = whys[-1]
+                o = cands[-1]
+                sig = "ints:cell:" + why
+                if len([k for k in union_keys(rows) if pystr_key(k) == n]) > 1:
+                    sig = "str-key-collision"
+                else:
+                    sh = p16_shape(rows, n)
+                    if sh == "list-kept" and why == "seq-not-tuple":
+                        sig = "first-row-tuple:list-kept"
+                    elif sh == "scalar-tupled" and why in ("str", "dict"):
+                        sig = "first-row-tuple:scalar-tupled"
+                fails.append(F("B", "triple %s row %d field %r: evaluator yielded %s, table holds %s (%s)" % (key, i + 1, n, json.dumps(o)[:150], json.dumps(g)[:150], why), sig))
+            for n, g in grow.items():
+                if n not in names and n not in ID_COLS and g is not None:
+                    fails.append(F("B", "triple %s row %d has a field %r=%s the evaluator never yielded" % (key, i + 1, n, json.dumps(g)[:100]), "ints:extra-field"))
+    if any(has_collision(rows_of(case, t)) for t in done):
+        # columns of unequal length corrupt the whole interactions table: every mismatch of such a case is attributed to the collision
+        for f in fails:
+            if f["sig"].startswith(("ints:", "first-row-tuple")):
+                f["sig"] = "str-key-collision"
+    return fails
+
+
+# ------------------------------------------------------------------ generator
+STR_POOL = ["", "a", "x y", "é", "naïve\n", "line1\nline2", "\r\n", "tab\tq\"uote\\", " sep", "\U0001F600", "NaN", "1", "null", " lead", "ü" * 3, "\x7f\x01"]
+ROW_STR_KEYS = ["reward", "a", "b", "c d", "é\n", "rewards", "action", "probability", "Z", "k9"]
+PARAM_STR_KEYS = ["a", "b", "learning_rate", "seed", "é", "x y", "args", "n\n", "type"]
+
+
+def gen_float(rng):
+    k = rng.below(14)
+    if k == 0:
+        return rng.choice(["nan", "inf", "-inf"])
+    if k == 1:
+        return repr(float(rng.randint(-5, 5)))                      # integral float (also -0.0/0.0)
+    if k == 2:
+        return repr((2 * rng.randint(-60000, 60000) + 1) * 5 / 1000000)   # decimal tie x.xxxxx5
+    if k == 3:
+        return repr(rng.randint(-30, 30) / 10 ** 7)                  # below the precision
+    if k == 4:
+        return repr(rng.randint(1, 9) + rng.choice([0.999995, 0.999994999, 0.9999951, 0.99999]))
+    if k == 5:
+        return repr(float(rng.choice([10 ** 20, -10 ** 17, 2 ** 53, 123456789012])))
+    if k == 6:
+        return repr(rng.randint(-10 ** 9, 10 ** 9) / 1000)
+    if k == 7:
+        return repr((2 * rng.randint(0, 40) + 1) / 2 ** rng.randint(1, 20))      # dyadic: exact ties possible
+    if k == 8:
+        return "-0.0"
+    d = rng.randint(1, 7)
+    return repr(rng.randint(-10 ** (d + 1), 10 ** (d + 1)) / 10 ** d)
+
+
+def gen_scalar(rng):
+    k = rng.wchoice([(10, "none"), (6, "bool"), (16, "int"), (30, "float"), (18, "str")])
+    if k == "none":
+        return None
+    if k == "bool":
+        return rng.chance(0.5)
+    if k == "int":
+        return ["i", rng.choice([0, 1, -1, rng.randint(-100, 100), rng.randint(-10 ** 6, 10 ** 6), 10 ** 18 + 1, -2 ** 63])]
+    if k == "float":
+        return ["f", gen_float(rng)]
+    return ["s", rng.choice(STR_POOL)]
+
+
+def gen_nested_key(rng, used):
+    for _ in range(10):
+        k = ["s", rng.choice(["a", "b", "k", "é", "x\ny", "zz"])] if rng.chance(0.8) else ["i", rng.randint(2, 9)]
+        if json_key(k) not in used:
+            used.add(json_key(k))
+            return k
+    return None
+
+
+def gen_val(rng, depth):
+    if depth <= 0 or rng.chance(0.62):
+        return gen_scalar(rng)
+    k = rng.wchoice([(5, "l"), (4, "t"), (3, "d")])
+    if k in ("l", "t"):
+        return gen_seq(rng, depth, k)
+    return gen_dict(rng, depth)
+
+
+def gen_seq(rng, depth, kind=None):
+    kind = kind or rng.choice(["l", "t"])
+    n = rng.choice([0, 1, 1, 2, 2, 3])
+    return [kind, [gen_val(rng, depth - 1) for _ in range(n)]]
+
+
+def gen_dict(rng, depth):
+    used = set()
+    out = []
+    for _ in range(rng.choice([0, 1, 2, 2, 3])):
+        k = gen_nested_key(rng, used)
+        if k is not None:
+            out.append([k, gen_val(rng, depth - 1)])
+    return ["d", out]
+
+
+def gen_params(rng, kind):
+    if rng.chance(0.15):
+        return None
+    used = set()
+    out = []
+    for _ in range(rng.choice([0, 1, 2, 3, 4])):
+        k = ["s", rng.choice(PARAM_STR_KEYS)] if rng.chance(0.85) else rng.choice([["i", 2], ["i", 10], ["f", "0.5"]])
+        if json_key(k) in used:
+            continue
+        used.add(json_key(k))
+        out.append([k, gen_val(rng, 2)])
+    if rng.chance(0.12) and kind in ("env", "lrn") and TYPEKEY[kind] not in used:
+        out.append([S(TYPEKEY[kind]), S(rng.choice(["custom", "é", "Lrn"]))])
+    return ["d", out]
+
+
+def gen_rows(rng, prone, tags):
+    """rows of one triple. `prone`: allow the shapes on which the pinned commit's first-row test fails"""
+    mode = rng.wchoice([(8, "zero"), (3, "allempty" if prone else "normal"), (89, "normal")])
+    if mode == "zero":
+        return []
+    n = rng.choice([1, 1, 2, 2, 3, 4, 6])
+    if mode == "allempty":
+        return [["d", []] for _ in range(n)]
+    pool = list(ROW_STR_KEYS)
+    nonstr = [["i", 2], ["i", 7], True, None, ["f", "0.5"], ["t", [["i", 1], ["i", 2]]]]
+    keys = [["s", s] for s in rng.sample(pool, rng.choice([1, 2, 2, 3, 4]))]
+    if rng.chance(0.3):
+        keys += rng.sample(nonstr, rng.choice([1, 1, 2]))
+    if prone and rng.chance(0.25):
+        keys += [["i", 3], ["s", "3"]] if rng.chance(0.6) else [True, ["s", "True"]]
+    cols = {}
+    for k in keys:
+        if prone:
+            ck = rng.wchoice([(40, "scalar"), (25, "seq"), (15, "seq-ragged"), (20, "any")])
+        else:
+            ck = rng.wchoice([(62, "scalar"), (38, "seq")])
+        cols[json.dumps(k)] = ck
+    ragged = rng.chance(0.55)
+    rows = []
+    for i in range(n):
+        row = []
+        for k in keys:
+            ck = cols[json.dumps(k)]
+            absent = ragged and rng.chance(0.3)
+            if ck == "scalar":
+                if absent:
+                    continue
+                v = gen_scalar(rng) if rng.chance(0.85) else gen_dict(rng, 2)
+            elif ck == "seq":
+                v = gen_seq(rng, 2)          # present in every row: the first-row test is right
+            elif ck == "seq-ragged":
+                if absent:
+                    continue
+                v = gen_seq(rng, 2) if rng.chance(0.7) else None
+            else:
+                if absent:
+                    continue
+                v = gen_val(rng, 2)
+            row.append([k, v])
+        if rng.chance(0.2):
+            row = rng.shuffle(row)
+        rows.append(["d", row])
+    return rows
+
+
 class C07(Property):
     id = "C07"
     prop_modules = ["CobaVerif.Props.C07"]
-    quick_n, thorough_n, search_n = 600, 12000, 1500
+    quick_n, thorough_n, search_n = 500, 12000, 1200
     case_timeout = 60
     workers = 8
+    rule = ("a case is an experiment (1-3 environments, 1-3 learners, 1-2 evaluators, a non-empty set of triples) whose instrumented evaluators yield generated rows "
+            "(ragged field sets, str/int/bool/None/float/tuple field names, None, bools, ints, floats incl. decimal ties at the 5th decimal, NaN/inf, -0.0, unicode/newline strings, "
+            "nested lists/tuples/dicts) and whose components carry generated params; it is run through Experiment.run without a file, with a plain or .gz file (fresh, or "
+            "restored after a first run in which some evaluations failed) and Result.from_file. Non-trivial: at least one completed triple with >= 2 rows and >= 2 distinct fields. "
+            "Distinct = distinct canonical JSON of the case.")
+    trusted_base = [
+        "json text codec (json.dumps/json.loads), file write/read and gzip: modelled as the identity on values modulo tuple->list and key->string (jsonify); checked on every case by (A)",
+        "float <-> shortest decimal repr (float.__repr__ / float()): the model's k/10^5 stands for the double nearest to it",
+        "binary64 product v*10**5 modelled by `fl` (round to nearest even, normal range), validated by (A) incl. decimal and dyadic ties",
+        "MakeTasks/ProcessTasks/SafeEnvironment/SafeLearner/SafeEvaluator (which transactions are emitted) are mirrored by the harness, not by the Lean model",
+    ]
+    assumptions = [
+        "field names of one transaction are pairwise not Python-equal unless identical (1 vs True vs 1.0 are never mixed)",
+        "nested dictionaries and params dictionaries have no two keys that json.dumps coerces to the same string, and no tuple keys (json.dumps raises TypeError on those)",
+        "finite floats have magnitude within the normal binary64 range and |v*10^5| < 2^53 unless integral",
+        "the 'rewards' column is exempt from the list->tuple conversion (explicit `k != 'rewards'` in packed_list2tuple): (B) accepts a list or a tuple there",
+        "field names equal to environment_id/learner_id/evaluator_id/index are overwritten by the id columns and are outside the property's quantifier",
+    ]
+    partial_theorems = {
+        "first_row_tuple_partial": "the pinned commit converts a column by looking at its first row only; equal to the per-cell conversion only when firstRowDecides (see first_row_tuple_counterexample / fixes/C07-tuple-per-cell.diff)",
+        "packAsIs_partial": "the pinned commit's packing is correct only when str() is injective on the field names of the transaction (see packAsIs_collision_counterexample / fixes/C07-str-key-collision.diff)",
+        "roundtrip_normalise_partial": "a transaction whose rows have no field at all leaves no row in the table (empty_rows_dropped_counterexample); recorded as C07-F5",
+        "minimize_idempotent_partial": "idempotence of the concrete round5 needs |k| <= 2^53 for the rounded numerator",
+    }
+
+    # ---- cases
+    def generate(self, rng, tier, prone=None):
+        if prone is None:
+            prone = rng.chance(0.22)
+        ne, nl, nv = rng.choice([1, 1, 2, 2, 3]), rng.choice([1, 2, 2, 3]), rng.choice([1, 1, 1, 2])
+        envs = [{"params": gen_params(rng, "env")} for _ in range(ne)]
+        lrns = [{"params": gen_params(rng, "lrn")} for _ in range(nl)]
+        vals = [{"params": gen_params(rng, "val"), "lazy": rng.chance(0.6)} for _ in range(nv)]
+        allt = [[e, l, v] for e in range(ne) for l in range(nl) for v in range(nv)]
+        k = rng.choice([1, 2, 2, 3, 4, len(allt)])
+        triples = rng.sample(allt, min(k, len(allt)))
+        if rng.chance(0.5):
+            triples = sorted(triples)
+        rows = [[t, gen_rows(rng, prone, None)] for t in triples]
+        case = {"envs": envs, "lrns": lrns, "vals": vals, "triples": triples, "rows": rows,
+                "desc": rng.choice([None, "plain", "é\nü \"q\"", ""]), "gz": rng.chance(0.4), "seed": rng.choice([1, 1, 7, 0]),
+                "phases": 1, "skip1": [], "fail": []}
+        if rng.chance(0.2):
+            case["fail"] = rng.sample(triples, 1)
+        if rng.chance(0.45):
+            case["phases"] = 2
+            case["skip1"] = rng.subset(triples, 0.5)
+        return case
+
+    def search(self, rng, tier):
+        return self.generate(rng, tier, prone=rng.chance(0.5))
+
+    def corpus(self):
+        def D(*kv):
+            return ["d", [list(p) for p in kv]]
+
+        def base(rows, **kw):
+            c = {"envs": [{"params": D((S("a"), ["i", 1]))}], "lrns": [{"params": None}], "vals": [{"params": D(), "lazy": True}],
+                 "triples": [[0, 0, 0]], "rows": [[[0, 0, 0], rows]], "desc": None, "gz": False, "seed": 1, "phases": 1, "skip1": [], "fail": []}
+            c.update(kw)
+            return c
+        L = lambda *xs: ["l", list(xs)]
+        T = lambda *xs: ["t", list(xs)]
+        I = lambda n: ["i", n]
+        cs = [
+            base([D((S("a"), L(I(1), I(2)))), D((S("a"), T(I(3))))]),
+            base([D((S("a"), I(1))), D((S("b"), I(2)))], gz=True),
+            base([D((S("x"), ["f", "0.000005"]), (S("y"), ["f", "1.234565"]), (S("z"), ["f", "0.999999"]), (S("w"), ["f", "nan"]), (S("v"), ["f", "-inf"]), (S("u"), ["f", "-0.0"]),
+                    (S("t"), ["f", "1e+20"]), (S("s"), ["f", "2.5e-06"]), (S("r"), ["f", "0.5"]), (S("q"), ["f", "2.675"]))]),
+            base([D((S("rewards"), L(I(1), I(2))), (S("reward"), ["f", "0.25"])), D((S("rewards"), T(I(3))), (S("reward"), I(1)))]),
+            base([D((None, I(7)), (True, I(1)), (T(I(1), I(2)), I(5)), (["f", "0.5"], I(1)), (I(2), S("é\n")))]),
+            base([D((S("a"), D((I(1), T(I(2), L(I(3)))), (S("k"), None))))]),
+            base([D((S("a"), L())), D((S("a"), L(I(1))))]),
+            base([], phases=2),
+            base([D((S("a"), I(1)))], envs=[{"params": D((S("p"), T(I(1), ["f", "0.123456789"])), (I(2), L(L(I(1)))), (S("env_type"), S("custom")))}],
+                 lrns=[{"params": D((S("family"), S("fam")), (S("x"), D((S("y"), T()))))}], vals=[{"params": D((S("eval_type"), S("mine")), (S("z"), ["f", "nan"])), "lazy": False}], desc="é\n", gz=True),
+        ]
+        # two phases: one triple skipped in the first run, one always failing
+        c = base([D((S("a"), I(1)))])
+        c.update({"envs": [{"params": None}, {"params": D((S("b"), T()))}], "lrns": [{"params": D()}, {"params": None}], "triples": [[0, 0, 0], [1, 0, 0], [0, 1, 0], [1, 1, 0]],
+                  "rows": [[[0, 0, 0], [D((S("a"), I(1))), D((S("a"), I(2)), (S("b"), T(I(1))))]], [[1, 0, 0], [D((S("q"), ["f", "0.1"]))]], [[0, 1, 0], [D((S("z"), S("s")))]],
+                           [[1, 1, 0], [D((S("never"), I(0)))]]],
+                  "phases": 2, "skip1": [[1, 0, 0], [0, 1, 0]], "fail": [[1, 1, 0]], "gz": True})
+        cs.append(c)
+        return cs
+
+    # ---- evaluation
+    def evaluate(self, case, driver):
+        tags = []
+        impl, logs = run_impl(case)
+        fails = check_property(case, impl)
+        eid, lid, vid = assign_ids(case)
+        fail = set(map(tuple, case.get("fail", [])))
+        done = [tuple(t) for t in case["triples"] if tuple(t) not in fail]
+        # tags / non-triviality
+        nontrivial = False
+        tags.append("phases:%d" % case.get("phases", 1))
+        tags.append("gz" if case.get("gz") else "plain")
+        if case.get("fail"):
+            tags.append("failing-triple")
+        if case.get("phases", 1) == 2:
+            tags.append("restored:skipped=%d" % min(3, len(case.get("skip1", []))))
+        for t in done:
+            rows = rows_of(case, t)
+            names = {pystr_key(k) for k in union_keys(rows)}
+            if len(rows) >= 2 and len(names) >= 2:
+                nontrivial = True
+            tags.append("rows:%s" % (len(rows) if len(rows) < 3 else "3+"))
+            if rows and not names:
+                tags.append("shape:all-empty-rows")
+            if has_collision(rows):
+                tags.append("shape:str-key-collision")
+            if any(len(row_keys(r)) != len(names) for r in rows):
+                tags.append("shape:ragged")
+            for n in names:
+                sh = p16_shape(rows, n)
+                if sh:
+                    tags.append("shape:first-row:" + sh)
+            for r in rows:
+                for k, v in r[1]:
+                    tags.append("key:" + kind_of(k))
+                    tags.append("cell:" + kind_of(v))
+                    if kind_of(v) == "float":
+                        x = float(v[1])
+                        if math.isfinite(x) and not x.is_integer() and (Fraction(v[1]) * 10 ** 6) % 10 == 5 and (Fraction(v[1]) * 10 ** 6).denominator == 1:
+                            tags.append("float:decimal-tie")
+                        elif not math.isfinite(x):
+                            tags.append("float:nonfinite")
+        if any("raised" in v for v in impl.values()):
+            tags.append("raised:" + "/".join(sorted({v["raised"] for v in impl.values() if "raised" in v})))
+        for f in fails:
+            tags.append("B:" + f["sig"])
+        model = None
+        if driver is not None:
+            p1, txs = transactions(case)
+            info = ["d", [[S("n_learners"), ["i", len(lid)]], [S("n_environments"), ["i", len(eid)]],
+                          [S("description"), (["s", case["desc"]] if case.get("desc") is not None else None)], [S("seed"), ["i", case.get("seed", 1)]]]]
+            ans = driver.ask({"info": lean_val(info), "txs": [lean_tx(t) for t in txs], "phase1": None if p1 is None else [lean_tx(t) for t in p1]})
+            combos = {c: {r: canon_model_result(ans[c][r]) for r in ("nofile", "file", "from_file")} for c in ("ff", "ft", "tf", "tt")}
+            model = {"ff": combos["ff"]["file"], "tt": combos["tt"]["file"]}
+            collide = any(has_collision(rows_of(case, t)) for t in done)
+            # (A): the implementation equals the model of the pinned code or of (partly) repaired code, the same one on all routes
+            matching = [c for c in ("ff", "ft", "tf", "tt") if all(impl[r] == combos[c][r] for r in ("nofile", "file", "from_file"))]
+            if not matching:
+                ok = False
+                if collide and not any("raised" in v for v in impl.values()):
+                    # the pinned encoder's output depends on Python's set order when names collide under str(): compare everything else
+                    ok = any(all(all(impl[r][t] == combos[c][r].get(t) for t in ("exp", "envs", "lrns", "vals")) for r in ("nofile", "file", "from_file")) for c in ("ff", "tt"))
+                    tags.append("A:collision-partial")
+                if not ok:
+                    c = "ff"
+                    diff = "?"
+                    for r in ("nofile", "file", "from_file"):
+                        if impl[r] != combos[c][r]:
+                            if "raised" in impl[r] or "raised" in combos[c][r]:
+                                diff = "%s: implementation %s, model(pinned) %s" % (r, json.dumps(impl[r])[:200], json.dumps(combos[c][r])[:200])
+                            else:
+                                for t in ("exp", "envs", "lrns", "vals", "ints"):
+                                    if impl[r][t] != combos[c][r][t]:
+                                        diff = "%s.%s: implementation %s, model(pinned) %s" % (r, t, json.dumps(impl[r][t])[:300], json.dumps(combos[c][r][t])[:300])
+                                        break
+                            break
+                    fails.append(F("A", "the Result differs from the Lean model of the pinned and of the repaired code; " + diff, "A:result"))
+            else:
+                tags.append("A:match:" + matching[-1])
+            # (C): the model of the repaired code meets the specification (theorems roundtrip_normalise / params_roundtrip at run time),
+            #      and the Lean specification meets the Python oracle of the documented normalisation
+            tt = combos["tt"]["nofile"]
+            if "raised" in tt:
+                fails.append(F("C", "model of the repaired code raises %s" % tt["raised"], "C:raised"))
+            else:
+                by = {}
+                for r in tt["ints"]:
+                    d = {k: v for k, v in r}
+                    by.setdefault((d["environment_id"][1], d["learner_id"][1], d["evaluator_id"][1]), []).append(r)
+                seen = {}
+                for sp in ans["spec"]:
+                    seen[tuple(sp["ids"])] = sp        # the last record of a triple wins
+                for ids, sp in seen.items():
+                    srows = [canon_model_row(r) for r in sp["rows"]]
+                    if sp["nkeys"] > 0 and by.get(ids, []) != srows:
+                        fails.append(F("C", "model rows of triple %s differ from specRows" % (ids,), "C:specRows"))
+                spec_impl = {"file": {"exp": impl["file"].get("exp"), "envs": [], "lrns": [], "vals": [], "ints": [r for ids, sp in sorted(seen.items()) for r in [canon_model_row(x) for x in sp["rows"]]]}}
+                # Lean spec vs Python oracle: run the (B) interaction monitor on the spec rows
+                if not any("raised" in v for v in impl.values()):
+                    probe = {k: dict(impl["file"], ints=spec_impl["file"]["ints"]) for k in ("nofile", "file", "from_file")}
+                    for f in check_property(case, probe):
+                        if f["sig"].startswith(("ints:", "first-row", "str-key")):
+                            fails.append(F("C", "Lean specification vs Python oracle: " + f["what"], "C:" + f["sig"]))
+        return {"fails": fails, "nontrivial": nontrivial, "tags": sorted(set(tags)), "impl": impl.get("file"), "model": model}
+
+    # ---- shrinking
+    def shrink(self, case):
+        def cp(c):
+            return json.loads(json.dumps(c))
+        tris = case["triples"]
+        if len(tris) > 1:
+            for i in range(len(tris)):
+                c = cp(case)
+                t = c["triples"].pop(i)
+                c["rows"] = [tr for tr in c["rows"] if tr[0] != t]
+                c["skip1"] = [x for x in c["skip1"] if x != t]
+                c["fail"] = [x for x in c["fail"] if x != t]
+                yield c
+        if case.get("phases", 1) == 2:
+            c = cp(case); c["phases"] = 1; c["skip1"] = []; yield c
+        if case.get("gz"):
+            c = cp(case); c["gz"] = False; yield c
+        if case.get("fail"):
+            c = cp(case); c["fail"] = []; yield c
+        if case.get("desc") is not None:
+            c = cp(case); c["desc"] = None; yield c
+        for kind in ("envs", "lrns", "vals"):
+            for i, comp in enumerate(case[kind]):
+                if comp.get("params") is not None and comp["params"][1]:
+                    for j in range(len(comp["params"][1])):
+                        c = cp(case); c[kind][i]["params"][1].pop(j); yield c
+                if comp.get("params") is not None and not comp["params"][1]:
+                    c = cp(case); c[kind][i]["params"] = None; yield c
+        for ti, (t, rows) in enumerate(case["rows"]):
+            for ri in range(len(rows)):
+                c = cp(case); c["rows"][ti][1].pop(ri); yield c
+            for ri, row in enumerate(rows):
+                for ki in range(len(row[1])):
+                    c = cp(case); c["rows"][ti][1][ri][1].pop(ki); yield c
+                for ki, (k, v) in enumerate(row[1]):
+                    if isinstance(v, list) and v[0] in ("l", "t", "d") and len(v[1]) > 0:
+                        for j in range(len(v[1])):
+                            c = cp(case); c["rows"][ti][1][ri][1][ki][1][1].pop(j); yield c
+                    if isinstance(v, list) and v[0] in ("f", "s") and v[1] not in ("0.5", "a"):
+                        c = cp(case); c["rows"][ti][1][ri][1][ki][1] = ["i", 1]; yield c
+
+    def snippet(self, case):
+        return ("import sys, json; sys.path[:0] = [%r, '/verif/harness']\n"
+                "from props.c07 import run_impl, check_property\n"
+                "case = json.loads(%r)\n"
+                "impl, logs = run_impl(case)   # Experiment(...).run(None) / .run(file) [twice when phases==2] / Result.from_file(file) on instrumented components\n"
+                "print(json.dumps(impl)[:2000])\n"
+                "for f in check_property(case, impl): print(f['sig'], '--', f['what'])\n" % (os.environ.get("COBA_REPO", "/repo"), json.dumps(case)))
 
 
 PROPERTY = C07()
